@@ -384,6 +384,12 @@ func c04OperandAt(i, kind int, singleQuote bool) c04Operand {
 	case 1:
 		v := "n" + string(rune('a'+i))
 		return c04Operand{v, "n:" + v, false}
+	case 4: // a negated variable: the sign belongs to its operand and never swallows the operators that follow
+		v := string(rune('a' + i))
+		return c04Operand{"-$" + v, "(neg $" + v + ")", false}
+	case 5: // a negative number literal
+		v := string(rune('1' + i))
+		return c04Operand{"-" + v, "#-" + v, true}
 	case 3: // number literals: what a constant-folding optimiser would like to regroup
 		v := string(rune('1' + i))
 		return c04Operand{v, "#" + v, true}
@@ -581,11 +587,19 @@ func init() {
 				// operand kinds: a repeating pattern of kinds (two for n<=3, vars only for n=4)
 				kinds := []int{0}
 				if n < 4 {
-					kinds = []int{c.Choose(4), c.Choose(4)}
+					kinds = []int{c.Choose(6), c.Choose(6)}
 				}
 				single := false
 				if kinds[0] == 2 || (len(kinds) > 1 && kinds[1] == 2) {
 					single = c.Bool()
+				}
+				// the postfix operators bind tighter than a sign (-$f(1) negates the call): a negated operand is
+				// generated only where the next operator is an infix one
+				for i, op := range ops {
+					if k := kinds[i%len(kinds)]; (k == 4 || k == 5) && (op == "." || op == "[" || op == "(" || op == "{") {
+						c.Done()
+						return
+					}
 				}
 				toks, starts, ends := c04Chain(ops, kinds, single)
 				// parenthesis span: none, or one (open before a primary, close after a later end)
